@@ -5,7 +5,7 @@ NOT_BUILT = "check not built yet in this round (design in DESIGN.md section 3); 
 
 def fill(claim, na):
     for p in ["C01", "C02", "C03", "C04",  "C10", "C13",
-              "C15", "C16", "C18"]:
+              "C15", "C16"]:
         na(p, NOT_BUILT)
     na("C05", "equality of decoded flux with the sector dump is a statement about decoding arbitrary bit-streams "
               "(gap lengths, sync search, bit order, opcode placement); no clause is visible in the shape of the code "
@@ -83,3 +83,13 @@ def fill(claim, na):
           "destination is not itself the image.",
           "Trusts the table of file-modifying library entry points and that a '/'-free relative name stays in its directory.",
           "DESIGN.md 3/C12")
+    claim("C18",
+          "layering census by build target; effect analysis of every verbose-guarded region (verbose flag tracked "
+          "through bool parameters and function pointers; purity of callees with local-effect refinement); "
+          "field-wise check of the presentation option handlers; single-consumer census for UI/terminal inputs; "
+          "non-determinism census",
+          "Decides the structural part for every image and command: nothing executed only under --verbose or "
+          "--show-config can alter standard output, exit status or program state; --ui/COLUMNS reach only cat. "
+          "Equality of outputs as such is not executed or compared.",
+          "Trusts that writes to std::cerr / local string streams are unobservable on stdout, and the std const-contract.",
+          "DESIGN.md 3/C18")
